@@ -208,8 +208,11 @@ CLAIMED = {
         note="FootprintsSound is proved for the coulomb_atoms family; its premise (a sampling/dumping/end-of-run commit finds the active unit in "
              "its recorded cell) is itself derived by the joint induction of JF/Props/SystemInv.lean (c09_fresh_closed: pending = fresh yield "
              "at every leg of every run of the four shipped coulomb_atoms wirings, positive direction, explicit no-tie hypothesis for the two "
-             "cell wirings, none for the two without cells). It stays a hypothesis (tables written by hand, validated on runs) for "
-             "composite-object configurations. Pool sizes (clause i) are not derived: "
+             "cell wirings, none for the two without cells). For composite objects without a cell system (the five dipole wirings, water/single_molecule, ...) "
+             "FootprintsSound is proved as well (JF/Props/Footprints2.lean: footprintsSound_concrete2 over the two-level machine, C10's factor "
+             "maps and E13's kind map; fresh_concrete2, clause_h_concrete2; tie: harness/fpcorr2.py compares what the real taggers yield "
+             "with the world's yields on every recorded leg) under the mode premise that ModeDiscipline concludes from the activation flags; "
+             "it stays a hypothesis (tables written by hand, validated on runs) for composite objects WITH a cell system. Pool sizes (clause i) are not derived: "
              "exhaustion is an explicit error outcome in model and code and is reported by the oracle.",
         technique="Lean 4 proof over a hand-written activator model + generated decidable obligations per .ini + trace replay + run-level oracle",
         ref="§5 C09/C08, §4"),
